@@ -277,6 +277,16 @@ func monitor(c fw.Case, realOut []string) []string {
 				report("commit-complete-not-committed", "line %d (%s): transaction %d is commit-Complete but Committed.Change=%d", k, line, i, st.cC)
 			}
 		}
+		// a device that is unavailable / cancels / times out must not fail the change (retry instead)
+		for _, q := range st.reqs {
+			if strings.HasSuffix(q, "->unavailable") || strings.HasSuffix(q, "->canceled") || strings.HasSuffix(q, "->deadline") {
+				for _, e := range st.events {
+					if e.stage == "apply" && e.status == "F" {
+						report("transient-fails", "line %d (%s): the device answered %s and %s apply of transaction %d was failed", k, line, q[strings.LastIndex(q, "->")+2:], e.phase, e.index)
+					}
+				}
+			}
+		}
 		// failed blocks later: an apply event of j while an earlier i is Failed/Aborted and not rolled back
 		for _, e := range st.events {
 			if e.phase == "chg" && e.stage == "apply" && (e.status == "I" || e.status == "C") {
@@ -312,8 +322,21 @@ func monitor(c fw.Case, realOut []string) []string {
 		}
 		// termination
 		if op == "v3.end" && draining {
+			// by design (rollbacks go in reverse order) a rollback request for a change that is not the
+			// latest committed one waits until the later changes are rolled back; while it waits, its
+			// own change is no longer applied, so the applies of all later changes wait as well
+			blockedFrom := n + 1
 			for i := 1; i <= n; i++ {
 				t := st.txs[i]
+				if t.phase == "rbk" && t.rc == "P" && st.cR > uint64(i) && t.cc == "C" && (st.aO < t.co || t.ca == "P" || t.ca == "I") && i < blockedFrom {
+					blockedFrom = i
+				}
+			}
+			for i := 1; i <= n; i++ {
+				t := st.txs[i]
+				if i > blockedFrom && t.cc == "C" && t.ca == "P" {
+					continue
+				}
 				if t.phase == "chg" && !((t.cc == "C" || t.cc == "F") && done(t.ca) && t.ca != "I") {
 					report("terminates", "after the fault-free drain change %d is still commit=%s apply=%s", i, t.cc, t.ca)
 				}
@@ -339,4 +362,204 @@ func sortedKeys(m map[string]string) []string {
 	return out
 }
 
-var sigs = map[string]func(c fw.Case, realOut []string, msg string) bool{}
+// ---------------------------------------------------------------------------------------------
+// signatures of the listed known findings (KNOWN_FINDINGS.txt `sig=`): decidable predicates on the
+// case, the real answers and the monitor message
+
+func kindOf(msg string) string {
+	k, _, _ := strings.Cut(msg, ":")
+	return k
+}
+
+func anyHead(realOut []string, pred func(head string) bool) bool {
+	for _, o := range realOut {
+		head, _, _ := strings.Cut(o, " | ")
+		if pred(head) {
+			return true
+		}
+	}
+	return false
+}
+
+func anyEvent(realOut []string, prefix string) bool {
+	for _, o := range realOut {
+		if i := strings.LastIndex(o, " | E"); i >= 0 && strings.Contains(o[i:], prefix) {
+			return true
+		}
+	}
+	return false
+}
+
+func isConsistency(k string) bool { return strings.HasPrefix(k, "consistency-") }
+
+// the path a consistency message is about
+func msgPath(msg string) string {
+	for _, mark := range []string{"Values[", "the device has "} {
+		if i := strings.Index(msg, mark); i >= 0 {
+			rest := msg[i+len(mark):]
+			if j := strings.IndexAny(rest, "]="); j >= 0 {
+				return rest[:j]
+			}
+		}
+	}
+	return ""
+}
+
+// paths written by the appended transactions, in order
+func scriptWrites(c fw.Case) []map[string]string {
+	var out []map[string]string
+	for _, ln := range c.Script {
+		if strings.HasPrefix(ln, "v3.append") {
+			out = append(out, appendVals(ln))
+		}
+	}
+	return out
+}
+
+var sigs = map[string]func(c fw.Case, realOut []string, msg string) bool{
+	// the first valid commit on a configuration whose Committed.Values is nil panics
+	"nilMapCommit": func(c fw.Case, realOut []string, msg string) bool {
+		if len(c.Script) == 0 || !strings.Contains(c.Script[0], "seed=0") {
+			return false
+		}
+		k := kindOf(msg)
+		return (k == "panic" && strings.Contains(msg, "nilmap")) ||
+			(k == "terminates" && anyHead(realOut, func(h string) bool { return h == "panic nilmap" }))
+	},
+	// commitRollback leaves Committed.Target at the rollback index: nothing commits afterwards
+	"rollbackWedge": func(c fw.Case, realOut []string, msg string) bool {
+		return kindOf(msg) == "terminates" && anyEvent(realOut, "rbk.commit.I.")
+	},
+	// a later change failed validation (Committed.Target moved on and is never moved back): the
+	// rollback of the last valid change never starts
+	"rollbackAfterFailedChange": func(c fw.Case, realOut []string, msg string) bool {
+		if kindOf(msg) != "terminates" || len(realOut) == 0 {
+			return false
+		}
+		st := parseState(realOut[len(realOut)-1])
+		for i := 1; i < len(st.txs); i++ {
+			t := st.txs[i]
+			if t.phase == "rbk" && t.rc == "P" && st.cR == uint64(i) && st.cT != uint64(i) && st.cT != t.ri &&
+				strings.Contains(msg, fmt.Sprintf("rollback %d ", i)) {
+				return true
+			}
+		}
+		return false
+	},
+	// applyRollback sets Applied.Revision to the rollback index although the change of that index
+	// was never applied (its apply failed or was aborted)
+	"rollbackRevisionOfUnappliedChange": func(c fw.Case, realOut []string, msg string) bool {
+		k := kindOf(msg)
+		if k != "consistency-applied" && k != "consistency-device" {
+			return false
+		}
+		var line, rev int
+		if i := strings.Index(msg, "line "); i < 0 {
+			return false
+		} else if _, err := fmt.Sscanf(msg[i:], "line %d", &line); err != nil {
+			return false
+		}
+		if i := strings.Index(msg, "Applied.Revision="); i < 0 {
+			return false
+		} else if _, err := fmt.Sscanf(msg[i:], "Applied.Revision=%d", &rev); err != nil {
+			return false
+		}
+		for k := 0; k <= line && k < len(realOut); k++ {
+			if i := strings.LastIndex(realOut[k], " | E"); i >= 0 && strings.Contains(realOut[k][i:]+";", fmt.Sprintf("chg.apply.C.%d;", rev)) {
+				return false
+			}
+		}
+		return true
+	},
+	// a swallowed CAS conflict on a configuration write followed by the transaction write
+	"swallowedCfgConflict": func(c fw.Case, realOut []string, msg string) bool {
+		k := kindOf(msg)
+		if !(k == "terminates" || k == "commit-complete-not-committed" || k == "commit-before-apply" || k == "order" ||
+			k == "failed-blocks-later" || isConsistency(k) || (k == "panic" && strings.Contains(msg, "nilptr"))) {
+			return false
+		}
+		return anyHead(realOut, func(h string) bool { return strings.Contains(h, "CcT") || strings.Contains(h, "CcC") })
+	},
+	// a swallowed CAS conflict on a transaction write followed by the configuration write
+	"swallowedTxConflict": func(c fw.Case, realOut []string, msg string) bool {
+		k := kindOf(msg)
+		if !(k == "terminates" || k == "commit-before-apply" || k == "order" || k == "failed-blocks-later" || isConsistency(k)) {
+			return false
+		}
+		return anyHead(realOut, func(h string) bool { return strings.Contains(h, "TcC") || strings.Contains(h, "TrC") })
+	},
+	// the committed and applied side maps are one atomix map: Get overlays the entry's committed
+	// values with whatever was applied last
+	"sideMapAlias": func(c fw.Case, realOut []string, msg string) bool {
+		if !isConsistency(kindOf(msg)) {
+			return false
+		}
+		p := msgPath(msg)
+		n := 0
+		for _, w := range scriptWrites(c) {
+			if _, ok := w[p]; ok {
+				n++
+			}
+		}
+		return n >= 2
+	},
+	// store() encodes every insert/update of one call from its single loop variable
+	"storeLoopVariable": func(c fw.Case, realOut []string, msg string) bool {
+		k := kindOf(msg)
+		// once the side map holds entries whose content belongs to another path everything downstream
+		// is affected: BuildTree can fail for ever, the side-map transaction itself can fail (two
+		// operations on one key), which is a conflict that the reconciler swallows
+		if !(isConsistency(k) || k == "terminates" || k == "commit-complete-not-committed" || k == "commit-before-apply" || k == "panic") {
+			return false
+		}
+		for _, o := range realOut {
+			if strings.Contains(o, ">/") {
+				return true
+			}
+		}
+		return false
+	},
+	// values below a tombstone are pruned out of the side map (and a rollback of a subtree delete
+	// does not restore the children): nested paths with a delete
+	"tombstonePrune": func(c fw.Case, realOut []string, msg string) bool {
+		if !isConsistency(kindOf(msg)) {
+			return false
+		}
+		p := msgPath(msg)
+		rollbacks := false
+		for _, ln := range c.Script {
+			if strings.HasPrefix(ln, "v3.rollback") {
+				rollbacks = true // the rollback of a value that did not exist before is a tombstone
+			}
+		}
+		for _, w := range scriptWrites(c) {
+			for q, v := range w {
+				if (strings.HasPrefix(v, "~") || rollbacks) && q != p && (strings.HasPrefix(p, q) || strings.HasPrefix(q, p)) {
+					return true
+				}
+			}
+		}
+		return false
+	},
+	// store() updates an existing side-map entry only when PathValue.Index differs
+	"indexUnchangedNoUpdate": func(c fw.Case, realOut []string, msg string) bool {
+		if !isConsistency(kindOf(msg)) {
+			return false
+		}
+		p := msgPath(msg)
+		for _, w := range scriptWrites(c) {
+			if v, ok := w[p]; ok && strings.HasSuffix(v, "@0") {
+				return true
+			}
+		}
+		return false
+	},
+	// UpdateStatus writes the side map before the entry CAS: a conflict or a crash in between
+	// leaves applied values of a change the cursors say is not applied
+	"sideBeforeEntry": func(c fw.Case, realOut []string, msg string) bool {
+		if !isConsistency(kindOf(msg)) {
+			return false
+		}
+		return anyHead(realOut, func(h string) bool { return strings.Contains(h, "Cs") || strings.Contains(h, "Cc") })
+	},
+}
